@@ -392,8 +392,19 @@ func extPoolGet(fr *frame, a []value) value {
 	pick := -1
 	switch i.poolMode {
 	case PoolLIFO:
+		// the behaviour of sync.Pool on a single P: the private slot first, then
+		// the shared list, most recently added first
+		if ps.hasPrivate {
+			v := ps.private
+			ps.private, ps.hasPrivate = nil, false
+			return v
+		}
 		pick = len(ps.free) - 1
 	case PoolAdversarial:
+		if ps.hasPrivate {
+			ps.free = append(ps.free, ps.private)
+			ps.private, ps.hasPrivate = nil, false
+		}
 		if len(ps.free) > 0 {
 			pick = i.choice(len(ps.free)+1) - 1
 		}
@@ -426,7 +437,25 @@ func extPoolPut(fr *frame, a []value) value {
 	if x, ok := a[1].(iface); ok && x.t == nil {
 		return nil
 	}
+	// ownership check: an object must not be in a pool twice
 	if i.poolMode != PoolFresh {
+		if ps.hasPrivate && sameObject(ps.private, a[1]) {
+			i.ownershipViolation("pool-double-put")
+		}
+		for _, f := range ps.free {
+			if sameObject(f, a[1]) {
+				i.ownershipViolation("pool-double-put")
+			}
+		}
+	}
+	switch i.poolMode {
+	case PoolLIFO:
+		if !ps.hasPrivate {
+			ps.private, ps.hasPrivate = a[1], true
+		} else {
+			ps.free = append(ps.free, a[1])
+		}
+	case PoolAdversarial:
 		ps.free = append(ps.free, a[1])
 	}
 	i.res.poolPuts++
@@ -1014,4 +1043,16 @@ func containsSym(v value, depth int) bool {
 		}
 	}
 	return false
+}
+
+// ownershipViolation records an engine-level ownership violation (e.g. an object
+// released to a pool twice) as a failed assertion of the current path.
+func (i *interpreter) ownershipViolation(label string) {
+	if i.solver == nil || i.pos < len(i.script) {
+		return
+	}
+	r, m := i.solver.Check(nil, i.nondetVars(), true)
+	if r != Unsat {
+		i.violation(label, m, "")
+	}
 }
